@@ -305,6 +305,42 @@ def run(ck):
     ck.require_fact("A2.finalize-when-complete", flp, ev_call(RB + "finalizeOrFree"), m_eq(size, tot), True, "finalizeOrFree()",
                     why="(an entry still expecting slots would be finalized)")
 
+    ck.rule("S0 a db slot is released once: in addSlotToEntry (where the new slot is chained to the entry first, so freeBadEntry() releases it together with the "
+            "rest of the chain) and in useNewSlot, no path releases the slot being processed twice -- freeBadEntry() after chaining, freeUnusedSlot(slotId) and "
+            "freeSlot(slotId) each count; freeSlot() asserts !freed(), so a second release aborts every later rebuild of that cache_dir")
+    for fname in (RB + "addSlotToEntry", RB + "useNewSlot"):
+        f0 = facts.fn(fname)
+        sp = [p_["d"] for p_ in f0.params if "SlotId" in p_["t"] or p_["d"] == "slotId"]
+        ck.need(len(sp) >= 1, "C57: %s lost its slot-id parameter" % fname)
+        sp = sp[0]
+
+        def releases(ev, env, fs, sp=sp):
+            if ev.get("e") != "call":
+                return
+            x = E.strip(ev["x"])
+            fn_ = x.get("f", "")
+            if fn_ == RB + "chainSlots" and any(E.m_is_ref(sp)(a) for a in x.get("a", [])):
+                env["$chained"] = 1
+            n = 0
+            if fn_ == RB + "freeBadEntry" and env.get("$chained") == 1:
+                n = 1
+            if fn_ in (RB + "freeUnusedSlot", RB + "freeSlot") and x.get("a") and E.m_is_ref(sp)(x["a"][0]):
+                n = 1
+            if n:
+                env["$rel"] = min(2, env.get("$rel", 0) + 1)
+        f0l = ck.flow(f0, on_event=releases)
+        rel_sites = [st for st in f0l.sites if st.ev.get("e") == "call" and E.strip(st.ev["x"]).get("f") in (RB + "freeBadEntry", RB + "freeUnusedSlot", RB + "freeSlot")]
+        ck.need(rel_sites, "C57: %s no longer releases slots" % fname)
+        twice = [st for st in rel_sites if st.env.get("$rel", 0) >= 1 and (
+            (E.strip(st.ev["x"]).get("f") == RB + "freeBadEntry" and st.env.get("$chained") == 1) or
+            (E.strip(st.ev["x"]).get("f") != RB + "freeBadEntry" and E.strip(st.ev["x"]).get("a") and E.m_is_ref(sp)(E.strip(st.ev["x"])["a"][0])))]
+        if not twice:
+            ck.ok("S0.slot-released-once", f0.where(), "%s: no path releases the processed slot twice" % fname)
+        for st in twice[:1]:
+            ck.violation("S0.slot-released-once", "S0|%s|double-release" % fname, st.where(),
+                         "%s can release slot `%s` a second time ('%s' after it was already released on this path): freeSlot() asserts !freed() and the rebuild aborts, "
+                         "again on every restart" % (fname, sp, st.desc()[:60]), f0l.witness(st))
+
     # ------------------------------------------------------------------ slot flags
     ck.rule("S1 each slot is used once: mapSlot marks mapped only with mapped() F and freed() F; freeSlot marks freed only with freed() F; "
             "chainSlots links slot.more only with slot.more < 0; freeUnusedSlot frees only with mapped() F")
